@@ -1,6 +1,19 @@
 mod c08;
+mod c10;
 mod fx;
 use vkit::{Check, Level};
+extern "C" {
+    fn mallopt(param: i32, value: i32) -> i32;
+}
 fn main() {
-    vkit::main(&[Check { id: "C08", level: Level::ModelChecking, run: c08::run }]);
+    // harness-side only: keep big decode buffers on the heap instead of mmap/munmap + page faults per history
+    unsafe {
+        mallopt(-3, 32 << 20); // M_MMAP_THRESHOLD
+        mallopt(-1, 512 << 20); // M_TRIM_THRESHOLD
+        mallopt(-2, 8 << 20); // M_TOP_PAD
+    }
+    vkit::main(&[
+        Check { id: "C08", level: Level::ModelChecking, run: c08::run },
+        Check { id: "C10", level: Level::Exploration, run: c10::run },
+    ]);
 }
